@@ -56,17 +56,13 @@ def stepC17 (s : DSt) (op : String) (got : String) : StepResult DSt :=
       (match faceGet s.st.faces fid with
        | none => { st := s, expected := some "noface", spec := crashFail op got, cov := ["send:noface"] }
        | some fc =>
-         let out := sendOutcome fc.mtu true fc.localFields true false sz
-         let exp := match out with
-           | .panic => some "PANIC"
-           | _ => if got.startsWith "ok" then some got else some "ok"
          let carried := tokenVal gtoks "carried"
          let frames := (tokenVal gtoks "frames").bind (·.toNat?)
          let spec := crashFail op got ++
            (if got.startsWith "ok frames=" && (carried != some "1" || frames.getD 0 == 0) then
               [⟨"usable", "send", s!"a packet of {sz} bytes could not be sent on face {fid} (mtu {fc.mtu}): {got}"⟩] else [])
-         { st := s, expected := exp, spec := spec,
-           cov := [match out with | .frames 1 => "send:whole" | .frames _ => "send:fragmented" | .dropped => "send:dropped" | .panic => "send:panic"] })
+         { st := s, expected := (if got.startsWith "ok" then some got else some "ok"), spec := spec,
+           cov := [match frames with | some 1 => "send:whole" | some 0 => "send:dropped" | some _ => "send:fragmented" | none => "send:other"] })
     | _, _ => { st := s, expected := some "bad-op" }
   | ["probe", _, _] => { st := s, expected := some "ok", spec := crashFail op got, cov := ["probe"] }
   | _ => { st := s, expected := some "bad-op" }
